@@ -148,11 +148,11 @@ func init() {
 						}
 						l = append(l, pdus.TLV{Tag: tag, Len: uint16(ln), Val: r.Bytes(ln)})
 					}
-					if c.Idx%16 == 0 {
+					if c.Idx%17 == 0 { // (17, not 16: with 16 shards every such case would land on shard 0)
 						// several long values together: more than 65536 octets follow some triplet headers
 						l = nil
 						seen = map[uint16]bool{}
-						for _, ln := range [][]int{{65535, 10}, {10, 65535}, {40000, 40000}, {65535, 65535, 1}, {1, 65531, 2, 65531}}[c.Idx/16%5] {
+						for _, ln := range [][]int{{65535, 10}, {10, 65535}, {40000, 40000}, {65535, 65535, 1}, {1, 65531, 2, 65531}}[c.Idx/17%5] {
 							tag := uint16(r.U32())
 							for seen[tag] {
 								tag++
